@@ -16,7 +16,10 @@ EXPLANATION = (
     "element-wise; Path.__copy__ refreshes every element; Subpath.__copy__ copies its path. R18.2 operand write-sets: "
     "non-in-place operators (*, @, +, -, abs, ~, unary -, /) write no attribute of self/other and call no in-place method on "
     "them; they may mutate only a local bound to a copy. R18.3 adoption: a non-in-place operator must not store an operand "
-    "object itself inside its result (segment + segment, path + segment, segment + path). Not decided: arbitrary mutation "
+    "object itself inside its result (segment + segment, path + segment, segment + path). "
+    "A non-in-place operator that returns one of its operands (`return self` under some guard) is reported by R18.2: result and "
+    "operand are then one object. "
+    "Not decided: arbitrary mutation "
     "histories (but without a shared edge no history can alias)."
 )
 ASSUMPTIONS = [
